@@ -73,3 +73,13 @@ CASES += [
       "        trdata[:,:,:] = DD[:,:,:]\n        self.TrDMOp = TransitionDipoleMoment(data=trdata)",
       "        self.TrDMOp = TransitionDipoleMoment(data=DD)"),
 ]
+
+AB3 = "quantarhei/builders/aggregate_base.py"
+CASES += [
+    {"name": "rebuild keeps the diagonalized mark (the repaired defect)", "kind": "mutant", "rule": "C03-I", "edits": [
+        (AB3, "        self._diagonalized = False\n        # Hamiltonian operator", "        # Hamiltonian operator", 1)]},
+    {"name": "remove_Molecule leaves the coupling matrix (the repaired defect)", "kind": "mutant", "rule": "C03-I", "edits": [
+        (AB3, "        if self.coupling_initiated:\n            self.resonance_coupling = numpy.delete(\n                numpy.delete(self.resonance_coupling, im, 0), im, 1)\n", "", 1)]},
+    {"name": "add_Molecule leaves the coupling matrix (the repaired defect)", "kind": "mutant", "rule": "C03-I", "edits": [
+        (AB3, "        if self.coupling_initiated:\n            rc = numpy.zeros((self.nmono,self.nmono), dtype=numpy.float64)\n            rc[:self.nmono-1,:self.nmono-1] = self.resonance_coupling\n            self.resonance_coupling = rc\n", "", 1)]},
+]
